@@ -32,7 +32,7 @@ class SimThreadDeadlock(Exception):
 
 class SimThread:
     __slots__ = ("name", "fn", "thread", "resume", "done", "result", "exc", "pred",
-                 "wait_label", "daemon", "id", "started")
+                 "wait_label", "daemon", "id", "started", "serving")
 
     def __init__(self, id, name, fn, daemon):
         self.id = id
@@ -47,6 +47,7 @@ class SimThread:
         self.daemon = daemon
         self.thread = None
         self.started = False
+        self.serving = None  # pool workers: the simulated thread whose job is being run
 
 
 def cur():
@@ -403,13 +404,15 @@ class SimThreadPool(Executor):
         self._shutdown = False
         self.running = 0
         self.max_running = 0
+        self.max_queued = 0
 
     def submit(self, fn, /, *args, **kwargs):
         if self._shutdown:
             raise RuntimeError("cannot schedule new futures after shutdown")
         fut = Future()
-        self.items.append((fut, fn, args, kwargs))
+        self.items.append((fut, fn, args, kwargs, cur()))
         self.sched.record("submit", len(self.items))
+        self.max_queued = max(self.max_queued, len(self.items) + self.running)
         if len(self.workers) < self._max_workers:
             w = self.sched.spawn(self._worker, name=f"w{len(self.workers)}", daemon=True)
             self.workers.append(w)
@@ -422,7 +425,8 @@ class SimThreadPool(Executor):
             s.block_until(lambda: bool(self.items) or self._shutdown or s.stopping, "idle")
             if not self.items:
                 return
-            fut, fn, args, kwargs = self.items.pop(0)
+            fut, fn, args, kwargs, owner = self.items.pop(0)
+            cur().serving = owner
             self.running += 1
             self.max_running = max(self.max_running, self.running)
             if self.running >= 2:
